@@ -4,14 +4,17 @@ from __future__ import annotations
 import random
 
 from ..sim import srv as sim
+from .pumpfam import PumpFamily, gen_pump_case
 from .srvfam import ConnFamily, gen_resp
 
 ID = "C15"
-READY = False
+READY = True
 LEAN_TARGETS = ["NauyacaVerif.Props.C15"]
-THEOREMS = [f"NauyacaVerif.C15.{t}" for t in ("armed_while_waiting", "armed_before_deadline", "silent_closed", "timeout_response",
-                                               "no_timeout_after_complete", "tick_noop_after_complete", "never_rearmed", "requestTimeout_tie")]
+THEOREMS = ['NauyacaVerif.C15.armed_while_waiting', 'NauyacaVerif.C15.armed_before_deadline', 'NauyacaVerif.C15.silent_closed', 'NauyacaVerif.C15.timeout_response', 'NauyacaVerif.C15.no_timeout_after_complete', 'NauyacaVerif.C15.tick_noop_after_complete', 'NauyacaVerif.C15.never_rearmed', 'NauyacaVerif.C15.pump_armed', 'NauyacaVerif.C15.pump_handshake_timeout_closes', 'NauyacaVerif.C15.pump_inner_timer', 'NauyacaVerif.C15.requestTimeout_tie']
 EXTRACT = ["requestTimeout8"]
+LEVEL_TEXT = "Proved over explicit time (1/8 s ticks) for every event list: the request timer is armed exactly while waiting for the line or Titan body on a connected unanswered connection, never re-armed, the deadline has not passed while it is armed, a connection still waiting at the deadline is gone, the timeout response is exactly '40 Request timeout' + close, no timeout once the request is complete; PyOpenSSL pump: handshake timer armed until the handshake completes and closing when it fires. Correspondence: stall after every byte offset of Gemini and Titan requests under a virtual clock with boundary ticks (239/240), trickling, expiry ordered before/after late data, completion and disconnect; stall at each TLS handshake flight of the real pump. Partial: the stdlib backend's handshake timeout is asyncio.sslproto's (only its presence is observable live)."
+LEVEL_NOTE = "Trusted: Lean kernel (axioms propext, Classical.choice, Quot.sound only); the hand-written model Srv.step/Srv.pumpStep is tied to /repo by extraction (constants, 'every transport.write sits in _send_response') and by the correspondence run of every check (fake transport with asyncio's write-after-close semantics, virtual-clock loop, scripted handlers; real PyOpenSSL pump over memory BIOs); asyncio's transport/timer contract, OpenSSL's record layer and Python exception texts are assumed, see assumptions."
+TECHNIQUE = 'Lean 4 proof (invariant induction over all event lists of an executable connection state machine) + differential correspondence with the real asyncio protocol objects under a virtual clock'
 ASSUMPTIONS = [
     "asyncio call_later fires no earlier than its deadline and not after cancel(); the harness runs due timers right after advancing the virtual clock (1/8 s grid)",
     "stdlib TLS backend: the handshake timeout is asyncio.sslproto's own (60 s default) and is only observed live in the thorough tier; the PyOpenSSL backend's handshake timer is nauyaca's and is covered by family pumpstall",
@@ -121,4 +124,41 @@ class Stall(ConnFamily):
         return f"{case['req'][:10]}|clock{'>=' if now >= 240 else '<'}240|timeout{int(tw)}|resp{int(bool(obs['acts']))}|h{obs['h']}u{obs['u']}"
 
 
-FAMILIES = [Stall()]
+class PumpStall(PumpFamily):
+    """PyOpenSSL backend: a peer that stalls before or during the TLS handshake, or after it with an incomplete
+    request, is dropped at the timeout (with a 40 response when a TLS session exists)"""
+
+    name = "pumpstall"
+    quick_n = 120
+    thorough_n = 2000
+
+    def gen(self, rng, n):
+        for i in range(n):
+            c = gen_pump_case(rng)
+            k = i % 3
+            if k == 0:
+                c["stall"] = [rng.choice([1, 2]), rng.choice([0.0, 0.3, 0.5, 0.9, 0.99])]
+            else:
+                # handshake done, request incomplete, then silence
+                req = rng.choice([b"gemini://localhost/x", b"gemini://loc", b"titan://localhost/f;size=10\r\nabc", b""])
+                c["app"] = [req.hex()] if req else []
+                c["close_notify"] = False
+                c["post"] = [["t"]]
+                c["incomplete"] = True
+                c["up"] = True
+            yield c
+
+    def oracle(self, case, obs):
+        if case.get("stall"):
+            if not obs["tcpclosed"]:
+                return ("handshake-stall-kept", f"peer silent during TLS handshake flight {case['stall'][0]} is still connected after the timeout")
+            return None
+        if case.get("incomplete"):
+            plain = bytes.fromhex(obs["plain"]) if obs["plain"] != "-" else b""
+            pr = sim.parse_response(plain)
+            if not obs["tcpclosed"] or pr is None or pr[0] != 40:
+                return ("silent-kept", f"silent peer with an incomplete request after the handshake: closed={obs['tcpclosed']} response={plain[:40]!r}")
+        return None
+
+
+FAMILIES = [Stall(), PumpStall()]
